@@ -29,6 +29,7 @@ import (
 // Ctx is the per-execution context handed to a scenario body.
 type Ctx struct {
 	Dir   string // fresh scratch directory of this execution (removed afterwards)
+	Data  any    // scenario-private per-execution data (e.g. captured crash images)
 	class string
 	fail  string
 	obs   []string
@@ -67,6 +68,9 @@ type Scenario struct {
 	MaxSteps int
 	// ExpectDeadlockFree etc. are implicit: deadlock, livelock (step budget) and panics are violations.
 	Workers int // 0 = default 8
+	// After, if set, runs after each execution OUTSIDE the scheduler (it may start further
+	// controlled executions through InWorld, e.g. recovery of captured crash images).
+	After func(c *Ctx)
 	// Class prefixes the violation classes of this scenario (default: Name).
 	Class string
 }
@@ -157,6 +161,9 @@ func runOne(s Scenario, prefix []int, expect []vrt.Choice) (*Ctx, []vrt.Choice, 
 	})
 	os.RemoveAll(c.Dir)
 	classify(c, v)
+	if c.fail == "" && s.After != nil {
+		s.After(c)
+	}
 	return c, tr, v
 }
 
@@ -288,6 +295,9 @@ func worker(prop string, scenarios []Scenario) {
 		c := cur
 		os.RemoveAll(c.Dir)
 		classify(c, v)
+		if c.fail == "" && s.After != nil {
+			s.After(c)
+		}
 		execs++
 		steps += int64(v.Steps)
 		key := strings.Join(c.obs, "|")
